@@ -31,15 +31,19 @@ THEOREMS = [
     "C24.autoconnect_stays_connected",
     "C24.multicast_subscriber_sees_subject_suffix",
     "C24.late_subscriber_gets_terminal",
+    "C24.sync_one_source_subscription",
+    "C24.connect_reentrant_noop",
 ]
 RULE = ("histories of 3-14 calls (subscribe/unsubscribe of up to 5 subscribers, connect/disconnect of any earlier handle) at times drawn "
         "from a small grid so that calls coincide with each other and with source messages; sources cold or hot, completing / failing / "
         "never ending; subject kinds plain (publish, multicast(Subject()), share), BehaviorSubject (publish_value), ReplaySubject(buffer 0..3 "
         "or unbounded); wrappers raw connectable / ref_count / auto_connect(0..3); plus multicast(subject_factory, mapper) with mapper = "
-        "identity or merge(c, c). Non-trivial: at least two different call kinds and at least one delivery. Distinct by canonical JSON.")
+        "identity or merge(c, c); plus 'sync' cases: a source that emits 0-3 values (and maybe a terminal) from inside its subscribe(), "
+        "publish / publish_value, raw connectable and two ref_count views, subscribers that connect() / subscribe (to any view) / dispose another "
+        "subscription from inside on_next (nested up to depth 2), top-level connect/disconnect/unsubscribe/push. Non-trivial: at least two different call kinds and at least one delivery. Distinct by canonical JSON.")
 ASSUMPTIONS = [
     "single-threaded virtual-time execution on reactivex.testing.TestScheduler; sources are its cold/hot observables",
-    "subscribers are passive recorders (they do not subscribe/unsubscribe/connect from inside a callback)",
+    "virtual-time cases: subscribers are passive recorders; sync cases: subscribers may connect/subscribe/dispose others from inside on_next, but do not make the source emit from inside on_next (nested deliveries reorder what later observers of the snapshot see) and are not ReplaySubject-backed (its trampolined delivery is the subject family's business)",
     "ReplaySubject only with a count bound and its default scheduler (the time window is the subject family's business)",
     "auto_connect is modelled as written: it counts the subscribers currently present (count is decremented on unsubscribe), not the arrivals",
 ]
@@ -130,15 +134,231 @@ def cases(rng, tier):
                 seen.add(o[1])
             c["ops"].append([t, o])
         yield c
+    yield from gen_sync_cases(rng, tier)
 
 
 def model_request(case):
+    if case["op"] == "sync_run":
+        return case
     c = {k: v for k, v in case.items() if k not in ("via",)}
     if c.get("buf", 0) is None:
         c.pop("buf")
     if "init" in c:
         c["init"] = enc(c["init"])
     return c
+
+
+# =============================================================================== synchronous sources, re-entrant calls
+def gen_sync_cases(rng, tier):
+    """a source that emits inside subscribe(); subscribers that connect / subscribe (also through a second ref_count view) /
+    dispose another subscription from inside on_next"""
+    for _ in range(fw.tier_scale(tier, 1500, 12000)):
+        nsync = rng.choice([0, 1, 2, 3])
+        sync = [["N", rng.randrange(1, 6)] for _ in range(nsync)]
+        r = rng.random()
+        if r < 0.12:
+            sync.append(["C"])
+        elif r < 0.18:
+            sync.append(["E", "s0"])
+        c = {"op": "sync_run", "subject": rng.choice(["plain", "plain", "behavior"]), "sync": sync, "actions": [], "ops": []}
+        if c["subject"] == "behavior":
+            c["init"] = 9
+        nxt = [0]
+        nconn = [0]
+
+        def new_sub(depth):
+            i = nxt[0]
+            nxt[0] += 1
+            view = rng.choice([None, 0, 0, 1])
+            react = None
+            if depth < 2 and rng.random() < 0.55:
+                a = len(c["actions"])
+                c["actions"].append(None)
+                k = rng.random()
+                if k < 0.45:
+                    act = new_sub(depth + 1)
+                elif k < 0.75:
+                    act = ["connect"]
+                elif i > 0:
+                    act = ["unsub", rng.randrange(i)]
+                else:
+                    act = ["connect"]
+                # (no emission from inside on_next: nested deliveries reorder what later observers of the snapshot see)
+                c["actions"][a] = act
+                react = [rng.choice([1, 1, 2]), a]
+            return ["sub", i, view, react]
+
+        for _ in range(rng.choice([1, 2, 3, 5])):
+            k = rng.random()
+            if k < 0.5 and nxt[0] < 6:
+                c["ops"].append(new_sub(0))
+            elif k < 0.62:
+                c["ops"].append(["connect"])
+                nconn[0] += 1
+            elif k < 0.72 and nconn[0]:
+                c["ops"].append(["disconnect", rng.randrange(nconn[0])])
+            elif k < 0.85 and nxt[0]:
+                c["ops"].append(["unsub", rng.randrange(nxt[0])])
+            else:
+                c["ops"].append(["push", ["N", 70 + len(c["ops"])]])
+        if not any(o[0] == "sub" for o in c["ops"]):
+            c["ops"].insert(0, new_sub(0))
+        yield c
+
+
+def impl_sync(case):
+    import reactivex as rx
+    from reactivex import operators as ops
+    from reactivex.disposable import Disposable
+
+    seq = [0]  # global event clock
+
+    def tick():
+        seq[0] += 1
+        return seq[0]
+
+    nsub = [0]
+    state = {"open": set(), "maxopen": 0, "obs": {}}
+
+    def subscribe(observer, scheduler=None):
+        k = nsub[0]
+        nsub[0] += 1
+        state["open"].add(k)
+        state["maxopen"] = max(state["maxopen"], len(state["open"]))
+        state["obs"][k] = observer
+        for n in case["sync"]:
+            if n[0] == "N":
+                observer.on_next(n[1] + 100 * (k + 1))
+            elif n[0] == "C":
+                observer.on_completed()
+            else:
+                observer.on_error(InjectedError(n[1]))
+        return Disposable(lambda: state["open"].discard(k))
+
+    src = rx.Observable(subscribe)
+    conn = src.pipe(ops.publish() if case["subject"] == "plain" else ops.publish_value(case["init"]))
+    # what the shared subject receives, with the event clock (the subject is the connectable's own object)
+    feed = []
+    subject = conn.subject
+    o_next, o_err, o_comp = subject.on_next, subject.on_error, subject.on_completed
+
+    inflight = []  # clocks of the subject inputs whose delivery is in progress
+
+    def w_next(v):
+        if not subject.is_stopped:
+            feed.append([tick(), ["N", v]])
+            inflight.append(feed[-1][0])
+            try:
+                o_next(v)
+            finally:
+                inflight.pop()
+        else:
+            o_next(v)
+
+    def w_err(e):
+        if not subject.is_stopped:
+            feed.append([tick(), ["E", err_name(e)]])
+        o_err(e)
+
+    def w_comp():
+        if not subject.is_stopped:
+            feed.append([tick(), ["C"]])
+        o_comp()
+
+    subject.on_next, subject.on_error, subject.on_completed = w_next, w_err, w_comp
+    views = {}
+    out, disps, handles, marks = {}, {}, [], {}
+
+    def view(k):
+        if k is None:
+            return conn
+        if k not in views:
+            views[k] = conn.pipe(ops.ref_count())
+        return views[k]
+
+    def do(op):
+        if op[0] == "sub":
+            _, i, v, react = op
+            lg = out.setdefault(str(i), [])
+            got = [0]
+            marks[i] = [tick(), None]
+
+            def on_next(x):
+                lg.append(["N", x])
+                got[0] += 1
+                if react is not None and got[0] == react[0]:
+                    do(case["actions"][react[1]])
+
+            def on_error(e):
+                lg.append(["E", err_name(e)])
+                marks[i][1] = marks[i][1] or tick()
+
+            def on_completed():
+                lg.append(["C"])
+                marks[i][1] = marks[i][1] or tick()
+
+            disps[i] = view(v).subscribe(on_next, on_error, on_completed)
+        elif op[0] == "unsub":
+            d = disps.get(op[1])
+            if d is not None:
+                if marks[op[1]][1] is None:
+                    marks[op[1]][1] = tick()
+                    marks[op[1]].append(inflight[-1] if inflight else None)
+                d.dispose()
+        elif op[0] == "connect":
+            conn.connect()  # made from inside a callback: the history does not keep what it returns
+        elif op[0] == "disconnect":
+            if op[1] < len(handles) and handles[op[1]] is not None:
+                handles[op[1]].dispose()
+        elif op[0] == "push":
+            tick()
+            for k in sorted(state["open"]):
+                ob = state["obs"][k]
+                n = op[1]
+                ob.on_next(n[1]) if n[0] == "N" else (ob.on_completed() if n[0] == "C" else ob.on_error(InjectedError(n[1])))
+
+    for op in case["ops"]:
+        if op[0] == "connect":
+            handles.append(conn.connect())
+        else:
+            do(op)
+    ids = sorted(int(i) for i in out)
+    return {"out": {str(i): out[str(i)] for i in ids}, "nsrc": nsub[0], "maxopen": state["maxopen"], "hasSub": bool(conn.has_subscription),
+            "_feed": feed, "_marks": {str(i): marks[i] for i in ids}}
+
+
+def oracle_sync(case, o):
+    if o["maxopen"] > 1:
+        return f"{o['maxopen']} source subscriptions were open at the same time for one connectable (source subscribed {o['nsrc']} times)"
+    # every subscriber receives what the shared subject receives from its subscription on
+    feed = o["_feed"]
+    term = next(([t, n] for t, n in feed if n[0] in ("C", "E")), None)
+    for i, lg in o["out"].items():
+        a, b = o["_marks"][i][:2]
+        cut = o["_marks"][i][2] if len(o["_marks"][i]) > 2 else None  # unsubscribed while this subject input was being delivered
+        got = list(lg)
+        if term is not None and term[0] < a:
+            # subscribed to a stopped subject: exactly its terminal
+            if got != [term[1]]:
+                return f"subscriber {i} subscribed after the shared subject had terminated with {term[1]} but received {lg}"
+            continue
+        if case["subject"] == "behavior":
+            # the current value at the subscription: the last value the subject received before, else the initial one
+            before = [n[1] for t, n in feed if t < a and n[0] == "N"]
+            cur = ["N", before[-1] if before else case["init"]]
+            if not got or got[0] != cur:
+                return f"subscriber {i} of a publish_value observable did not first receive the current value {cur}: {lg}"
+            got = got[1:]
+        exp = [n for t, n in feed if t > a and (b is None or t < b) and t != cut]
+        if cut is not None and cut > a:
+            inflight_n = [n for t, n in feed if t == cut]
+            if got and inflight_n and got[-1] == inflight_n[0] and got[:-1] == exp:
+                exp = exp + inflight_n  # it had already received that value when it was unsubscribed
+        if got != exp:
+            return (f"subscriber {i} received {lg} but the shared subject received {exp} between its subscribe call and its "
+                    f"unsubscription/termination (subject input with clock: {feed}, subscriber window {a}..{b})")
+    return None
+
 
 
 # =============================================================================== real code
@@ -167,6 +387,8 @@ def _subject_factory(case):
 
 
 def impl(case):
+    if case["op"] == "sync_run":
+        return impl_sync(case)
     import reactivex as rx
     from reactivex import operators as ops
     from reactivex.subject import Subject
@@ -243,6 +465,8 @@ def impl(case):
 
 
 def canon_impl(case, o):
+    if case["op"] == "sync_run":
+        return {k: v for k, v in o.items() if not k.startswith("_")}
     return o
 
 
@@ -269,6 +493,8 @@ def _present_intervals(case, out):
 
 
 def oracle(case, o):
+    if case["op"] == "sync_run":
+        return oracle_sync(case, o)
     src = o["src"]
     # O1: never two live source subscriptions
     ivs = [(s, case["horizon"] + 1 if u is None else u) for s, u in src]
@@ -442,12 +668,21 @@ def oracle(case, o):
 
 
 def nontrivial(case, o):
+    if case["op"] == "sync_run":
+        return o["nsrc"] >= 1 and any(o["out"].values())
     kinds = {x[0] for _, x in case["ops"]}
     return len(kinds) >= 2 and any(o["out"].values())
 
 
 def bucket(case, o):
     yield case["op"]
+    if case["op"] == "sync_run":
+        yield "sync:subject:" + case["subject"]
+        yield "sync:reactions:%d" % len(case["actions"])
+        yield "sync:nsrc:%d" % min(o["nsrc"], 3)
+        for a in case["actions"]:
+            yield "sync:react:" + a[0]
+        return
     yield "subject:" + case["subject"]
     yield "wrap:" + case["wrap"] + (str(case["n"]) if case["wrap"] == "auto" else "")
     yield "source:" + ("hot" if case["hot"] else "cold")
@@ -457,6 +692,17 @@ def bucket(case, o):
 
 
 def shrink(case):
+    if case["op"] == "sync_run":
+        for i in range(len(case["ops"])):
+            if len(case["ops"]) > 1:
+                c = dict(case)
+                c["ops"] = case["ops"][:i] + case["ops"][i + 1:]
+                yield c
+        for i in range(len(case["sync"])):
+            c = dict(case)
+            c["sync"] = case["sync"][:i] + case["sync"][i + 1:]
+            yield c
+        return
     for i in range(len(case["ops"])):
         c = dict(case)
         c["ops"] = case["ops"][:i] + case["ops"][i + 1:]
@@ -475,7 +721,9 @@ LEVEL_TEXT = ("Lean theorems over the Connectable model, for every history of su
               "(`autoconnect_at_n`); a subscriber receives exactly the subject's input from its subscription on, plus current/replayed values "
               "(`multicast_subscriber_sees_subject_suffix`). The model is run against the real operators on generated histories (outputs and source "
               "subscription logs), and an independent oracle written against the property text runs on the real code.")
-LEVEL_NOTE = ("Model = single-threaded virtual-time semantics with passive subscribers; ReplaySubject only count-bounded with its default scheduler; "
+LEVEL_NOTE = ("Two models: virtual-time histories with passive subscribers (Conn.lean) and synchronous sources with re-entrant calls from callbacks "
+              "(ConnSync.lean, an explicit call-stack machine; theorem: never two open source subscriptions under any reactions); both run against the real code. "
+              "Model = single-threaded semantics; ReplaySubject only count-bounded with its default scheduler; "
               "multicast(subject_factory, mapper) is covered by the correspondence and the oracle (mapper = identity / merge(c, c)) but has no theorem of "
               "its own. auto_connect is modelled and proved as written (it counts subscribers currently present, its docstring says 'after that many "
               "subscriptions occur'); histories in which subscribers leave before the n-th arrives are accepted with the as-written reading.")
